@@ -3,6 +3,7 @@
 #![allow(clippy::needless_range_loop)]
 #![allow(clippy::type_complexity)]
 
+pub mod alloc_counter;
 pub mod checks;
 #[cfg(feature = "explore")]
 pub mod explore;
@@ -10,10 +11,16 @@ pub mod explore_free;
 pub mod readers;
 pub mod refmodel;
 pub mod report;
+#[cfg(fast_tlsh_verif)]
+pub mod sched;
 pub mod streams;
+pub mod transcript;
 pub mod variant;
 
 use report::Report;
+
+#[global_allocator]
+static GLOBAL: alloc_counter::Counting = alloc_counter::Counting;
 
 #[derive(Debug, Clone, Copy, PartialEq, Eq)]
 pub enum Tier {
@@ -58,12 +65,14 @@ pub fn run_check(id: &str, r: &mut Report, ctx: &Ctx) -> bool {
         "C12" => checks::c12::run(r, ctx),
         "C13" => checks::c13::run(r, ctx),
         "C14" => checks::c14::run(r, ctx),
+        "C07" => checks::c07::run(r, ctx),
         "C08" => checks::c08::run(r, ctx),
         "C09" => checks::c09::run(r, ctx),
         "C15" => checks::c15::run(r, ctx),
         #[cfg(feature = "serde")]
         "C16" => checks::c16::run(r, ctx),
         "C17" => checks::c17::run(r, ctx),
+        "C18" => checks::c18::run(r, ctx),
         _ => return false,
     }
     true
@@ -82,12 +91,14 @@ pub fn replay(id: &str, case: &serde_json::Value) -> Result<(), String> {
         "C12" => checks::c12::replay(case),
         "C13" => checks::c13::replay(case),
         "C14" => checks::c14::replay(case),
+        "C07" => checks::c07::replay(case),
         "C08" => checks::c08::replay(case),
         "C09" => checks::c09::replay(case),
         "C15" => checks::c15::replay(case),
         #[cfg(feature = "serde")]
         "C16" => checks::c16::replay(case),
         "C17" => checks::c17::replay(case),
+        "C18" => checks::c18::replay(case),
         _ => Err(format!("no replay for {id}")),
     }
 }
